@@ -76,7 +76,11 @@ def effective(case):
     """-> (spec in effect, placement label, budget, on_exhaust, redirects enabled)"""
     rq, ct = case.get("req_policy", NOT_GIVEN), case.get("ctor_policy", NOT_GIVEN)
     ctor_label = "pool" if case["client"] == "HTTPConnectionPool" else "manager"
-    if rq != NOT_GIVEN and ct != NOT_GIVEN:
+    if rq is None and ct != NOT_GIVEN:
+        # an explicit retries=None with the request means "not specified here" (that is how the pool itself reads
+        # it: Retry.from_int(None, default=self.retries); urllib3.request() always passes it): the constructor's applies
+        spec, placement = ct, "request-None+" + ctor_label
+    elif rq != NOT_GIVEN and ct != NOT_GIVEN:
         spec, placement = rq, "request+" + ctor_label
     elif rq != NOT_GIVEN:
         spec, placement = rq, "request"
@@ -291,6 +295,8 @@ def placements(client, thorough):
         out.append((NOT_GIVEN, p, NOT_GIVEN))
     for a, b in itertools.permutations(PAIR_SUBSET, 2):
         out.append((a, b, NOT_GIVEN))          # request-level must win over constructor-level
+    for b in PAIR_SUBSET:
+        out.append((None, b, NOT_GIVEN))       # ... unless it is an explicit None: then the constructor's is in effect
     out.append((NOT_GIVEN, NOT_GIVEN, False))  # redirect=False alone
     out.append((2, NOT_GIVEN, False))          # ... with a request-level budget
     out.append((NOT_GIVEN, 2, False))          # ... with a constructor-level budget
@@ -467,7 +473,7 @@ def run(ctx):
                    "origins {http,https} x {a.test,b.test} x {default port, 8080} on simnet; https through the stub TLS layer; ProxyManager = http forwarding proxy (https targets are tunnelled with CONNECT)",
                    "only redirects consume the budget (no faults injected; C04 owns the other categories)",
                    "effective policy reference: mc/checks/c05.py:ref_policy/effective, written from the documentation",
-                   "an explicit retries=None at request level together with a constructor-level policy is not enumerated (the documentation reads both ways)",
+                   "an explicit retries=None at request level together with a constructor-level policy is read as 'not specified with the request' (the pool's own reading: Retry.from_int(None, default=self.retries)), so the constructor-level policy is the one in effect",
                    "single-host pools are given absolute-URL and absolute-path Locations only (reference resolution is promised for PoolManager)",
                ],
                vacuity=[(ok or bool(acc.viol), msg) for ok, msg in [   # a run that already reports violations is not "vacuous"
